@@ -34,7 +34,7 @@ theorem safeFrom_sound (p : Program) (roots : List Var) (h : safeFrom p roots = 
     (halloc : ∀ o, Owned o → o < s0.next)
     (tr : List (Stmt × Val)) (htr : ∀ sc ∈ tr, sc.1 ∈ p) :
     ∀ o, Owned o → (run s0 tr).heap o = s0.heap o :=
-  okFor_sound p (taint p roots) roots h Owned s0 hown halloc tr htr
+  okFor_sound p (fun x => (taintArr p roots).getD x false) roots h Owned s0 hown halloc tr htr
 
 /-- **Soundness of `noParamWrite`.**  Caller-owned objects = objects that initially only the declared
 parameters (`param x ∈ p`) point at.  For every IR program, acceptance by the checker implies that
@@ -149,13 +149,13 @@ theorem self_attr_copy_accepted :
     (`data = data.copy(); data['Data'] = …; return helper(data, columns)`), function 1 =
     `_generate_scatter_2d_plot(data=30, columns=31)` with `columns.append('Data')`. -/
 def plotShapeAsFound : Module :=
-  #[⟨[0, 1], 12, [.fresh 10, .write 10, .call 1 [10, 1] 12]⟩,
-    ⟨[30, 31], 33, [.write 31, .fresh 33]⟩]
+  #[⟨[0, 1], [12], [.fresh 10, .write 10, .call 1 [10, 1] [12]]⟩,
+    ⟨[30, 31], [33], [.write 31, .fresh 33]⟩]
 
 /-- repaired helper: `columns = list(columns) + ['Data']` -/
 def plotShapeRepaired : Module :=
-  #[⟨[0, 1], 12, [.fresh 10, .write 10, .call 1 [10, 1] 12]⟩,
-    ⟨[30, 31], 33, [.fresh 32, .write 32, .fresh 33]⟩]
+  #[⟨[0, 1], [12], [.fresh 10, .write 10, .call 1 [10, 1] [12]]⟩,
+    ⟨[30, 31], [33], [.fresh 32, .write 32, .fresh 33]⟩]
 
 /-- **A write inside a callee is attributed to the caller's parameter** (transitivity through `call`):
 `columns` (and only `columns`) may be written, and the trace "bind parameters, run the callee" mutates
